@@ -290,4 +290,23 @@ theorem StoreInv.gcRes {s : Store} (h : StoreInv s) (g k n : String) : StoreInv 
       · exact h
       · exact h.deleteRes g k n "Background" true true none
 
+theorem StoreInv.reapplyUsage {s : Store} (h : StoreInv s) (nm c : String) : StoreInv (s.reapplyUsage nm c).1 := by
+  unfold Store.reapplyUsage
+  split
+  · exact h
+  · next x hg =>
+    have hx := getU_some hg
+    split
+    · exact h
+    · split
+      · exact h
+      · split
+        · exact h
+        · next hne =>
+          have hnil : x.owners = [] := by simpa using hne
+          refine h.putU_bump rfl ⟨h.delFin x hx.1, h.readyOf x hx.1, h.readyBy x hx.1, ?_⟩
+          intro hr b hb
+          obtain ⟨o, ho, _⟩ := h.owned x hx.1 hr b hb
+          rw [hnil] at ho; cases ho
+
 end Xp.C19
